@@ -129,6 +129,15 @@ func probeRanges(rs *ranges.InclusiveRanges) string {
 	n := rs.Len()
 	fmt.Fprintf(&b, " len=%d start=%d end=%d min=%d max=%d", n, rs.Start(), rs.End(), rs.Min(), rs.Max())
 	fmt.Fprintf(&b, " frames=%s", zlist(iterAll(rs.IterValues())))
+	if n >= 0 && n <= 1<<16 {
+		// enumeration by count: Len() calls of Next with no IsDone in between
+		it := rs.IterValues()
+		cnt := make([]int, 0, n)
+		for k := 0; k < n; k++ {
+			cnt = append(cnt, it.Next())
+		}
+		fmt.Fprintf(&b, " M_bycount=%s", zlist(cnt))
+	}
 	probeTail(&b, n, rs.Min(), rs.Max(), rs.Value, rs.Index, rs.Contains)
 	fmt.Fprintf(&b, " str=%s", hexs(rs.String()))
 	return b.String()
@@ -561,9 +570,21 @@ func dispatch(op string, a []string) string {
 		if err != nil {
 			return "ERR"
 		}
+		// templates that fail half-way through their execution, before anything is observed: what
+		// they wrote must not show up in a later String or Format of this or any other sequence
+		for _, bad := range []string{"{{dir}}POISON{{len 1}}", "{{base}}{{index .x 1}}", "STALE{{slice 1 2}}"} {
+			if out, perr := q.Format(bad); perr == nil || out != "" {
+				return "FAILED-FORMAT-RETURNED-TEXT"
+			}
+		}
 		f, ferr := q.Format("{{dir}}{{base}}{{frange}}{{pad}}{{ext}}")
 		if ferr != nil {
 			f = "FORMAT-ERROR"
+		}
+		// indices far outside [0,len): all of them must give the empty path
+		far := ""
+		for _, i := range []int{q.Len() + 1, q.Len() + 2, 1 << 40, (1 << 62) + 1, 1<<63 - 1, -(1 << 62), -1 << 63, (1 << 62) + q.Len(), 1 << 61, 3 << 61} {
+			far += b01(q.Index(i) != "")
 		}
 		var fi, fst []string
 		for _, p := range a[2:] {
@@ -572,7 +593,7 @@ func dispatch(op string, a []string) string {
 			s, _ = q.Frame(p)
 			fst = append(fst, hexs(s))
 		}
-		return "OK" + showSeq(q) + " fmt=" + hexs(f) + " frame=" + strings.Join(fi, ",") + " frames=" + strings.Join(fst, ",")
+		return "OK" + showSeq(q) + " fmt=" + hexs(f) + " frame=" + strings.Join(fi, ",") + " frames=" + strings.Join(fst, ",") + " M_far=" + far
 	case "seqops":
 		q, err := fileseq.NewFileSequencePad(a[0], fileseq.PadStyle(argz(a[1])))
 		if err != nil {
@@ -584,9 +605,28 @@ func dispatch(op string, a []string) string {
 		var b strings.Builder
 		b.WriteString("OK" + showSeq(q))
 		b.WriteString(" COPY" + showSeqOpt(q.Copy()))
-		for _, p := range q.Split() {
+		parts := q.Split()
+		for _, p := range parts {
 			b.WriteString(" PART" + showSeqOpt(p))
 		}
+		// the copy and the parts are values of their own: changing them leaves the original alone
+		before := showSeq(q)
+		cp := q.Copy()
+		for _, p := range append(parts, cp) {
+			if p == nil {
+				continue
+			}
+			p.SetDirname("/verif-alias/")
+			p.SetBasename("alias_")
+			p.SetExt(".als")
+			p.SetPadding("@@@@@@@")
+			p.SetFrameRange("77-79")
+		}
+		alias := "0"
+		if showSeq(q) != before {
+			alias = "1"
+		}
+		b.WriteString(" M_alias=" + alias)
 		return b.String()
 	case "list":
 		qs, err := fileseq.FindSequencesInList(a[1:], fileOpts(argzl(a[0]))...)
